@@ -20,6 +20,7 @@ import (
 	"time"
 
 	"github.com/lugu/qiloop/bus"
+	"github.com/lugu/qiloop/bus/directory"
 	"github.com/lugu/qiloop/bus/net"
 	"github.com/lugu/qiloop/type/object"
 	"qv/internal/hx"
@@ -46,6 +47,10 @@ func c13meta() object.MetaObject {
 		Description: "qv-signals",
 		Methods:     map[uint32]object.MetaMethod{},
 		Signals: map[uint32]object.MetaSignal{
+			// 106/107 carry the names and signatures the generated proxy of bus/directory looks up, so that
+			// its generated SubscribeServiceAdded/Removed (template meta/idl/proxy.go) run on top of SubscribeID
+			106: {Uid: 106, Name: "serviceAdded", Signature: "(Is)<serviceAdded,serviceID,name>"},
+			107: {Uid: 107, Name: "serviceRemoved", Signature: "(Is)<serviceRemoved,serviceID,name>"},
 			200: {Uid: 200, Name: "a", Signature: "(i)"},
 			201: {Uid: 201, Name: "b", Signature: "(i)"},
 		},
@@ -55,7 +60,18 @@ func c13meta() object.MetaObject {
 	}
 }
 
-var c13sigs = []uint32{200, 201, 300}
+var c13sigs = []uint32{200, 106, 201, 107, 300}
+
+// c13payload: the event payload for emission number p of signal sig.
+func c13payload(sig, p uint32) []byte {
+	b := c13le(p)
+	if sig == 106 || sig == 107 { // (Is): uint32, string
+		name := fmt.Sprintf("e%d", p)
+		b = append(b, c13le(uint32(len(name)))...)
+		b = append(b, name...)
+	}
+	return b
+}
 
 type c13sub struct {
 	idx       int
@@ -202,8 +218,25 @@ func (w *c13world) startSub(c int, sig uint32, h int) *c13sub {
 	cl := w.clients[c]
 	before := len(cl.c.Up.Frames())
 	rand.Seed(int64(1000 + h))
+	record := func(v uint32) {
+		s.mu.Lock()
+		s.got = append(s.got, v)
+		s.mu.Unlock()
+	}
 	go func() {
-		cancel, ch, err := cl.proxy.SubscribeID(sig)
+		var cancel func()
+		var err error
+		var raw chan []byte
+		var added chan directory.ServiceAdded
+		var removed chan directory.ServiceRemoved
+		switch sig {
+		case 106:
+			cancel, added, err = directory.MakeServiceDirectory(nil, cl.proxy).SubscribeServiceAdded()
+		case 107:
+			cancel, removed, err = directory.MakeServiceDirectory(nil, cl.proxy).SubscribeServiceRemoved()
+		default:
+			cancel, raw, err = cl.proxy.SubscribeID(sig)
+		}
 		s.mu.Lock()
 		s.cancel, s.err = cancel, err
 		s.mu.Unlock()
@@ -211,10 +244,27 @@ func (w *c13world) startSub(c int, sig uint32, h int) *c13sub {
 		if err != nil {
 			return
 		}
-		for p := range ch {
-			s.mu.Lock()
-			s.got = append(s.got, c13val(p))
-			s.mu.Unlock()
+		switch sig {
+		case 106:
+			for e := range added {
+				if e.Name != fmt.Sprintf("e%d", e.ServiceID) {
+					record(0xdead0000 | e.ServiceID&0xffff)
+				} else {
+					record(e.ServiceID)
+				}
+			}
+		case 107:
+			for e := range removed {
+				if e.Name != fmt.Sprintf("e%d", e.ServiceID) {
+					record(0xdead0000 | e.ServiceID&0xffff)
+				} else {
+					record(e.ServiceID)
+				}
+			}
+		default:
+			for p := range raw {
+				record(c13val(p))
+			}
 		}
 		s.mu.Lock()
 		s.closed = true
@@ -373,9 +423,9 @@ func (w *c13world) emitSnap(sig uint32, p uint32) {
 	done := w.emitDone
 	go func() {
 		if sig >= 300 {
-			w.obj.UpdateProperty(sig, "i", c13le(p))
+			w.obj.UpdateProperty(sig, "i", c13payload(sig, p))
 		} else {
-			w.obj.UpdateSignal(sig, c13le(p))
+			w.obj.UpdateSignal(sig, c13payload(sig, p))
 		}
 		close(done)
 	}()
@@ -471,6 +521,48 @@ func (w *c13world) dispatched(c int, f rig.Frame) {
 				s.waitUnreg = false
 				w.finishCancel(s)
 			}
+		}
+	}
+}
+
+// burst: every parked frame of connection c is handed to the client at once; the endpoint
+// dispatches them while the fan-out goroutines and readers run freely.  Labels: all the LCliRecv,
+// then the LDeliver of each reader (any real interleaving of the two stays within the queue
+// capacity for bursts of at most 100 events and has the same outcome).
+func (w *c13world) burst(c int) {
+	cl := w.clients[c]
+	var frames []rig.Frame
+	before := cl.c.Down.Read()
+	for {
+		f, ok := cl.c.Down.ReleaseOne()
+		if !ok {
+			break
+		}
+		frames = append(frames, f)
+	}
+	if !w.n.WaitFor(c13Wait, func() bool { return cl.c.Down.Read() >= before+len(frames) }) {
+		w.surprise("burst(%d): the client did not read %d frames", c, len(frames))
+	}
+	for _, f := range frames {
+		w.lab("LCliRecv %d", c)
+		if f.Hdr.Type != net.Event {
+			w.surprise("burst(%d): only events expected, saw %v", c, f)
+			continue
+		}
+		for _, e := range w.emits {
+			if e.sig == f.Hdr.Action && e.p == c13val(f.Payload) && e.sentTo[c] == 0 {
+				e.sentTo[c] = w.pos()
+			}
+		}
+		for _, s := range w.subs {
+			if s.conn == c && s.sig == f.Hdr.Action && s.installed() {
+				s.queued++
+			}
+		}
+	}
+	for _, s := range w.subs {
+		for s.conn == c && s.acked && s.queued > 0 {
+			w.deliver(s)
 		}
 	}
 }
@@ -900,6 +992,43 @@ func c13scripts() []func() (*c13world, string) {
 			w.drain()
 			return w, "cancel-with-event-in-flight"
 		},
+		func() (*c13world, string) { // the same signal subscribed and cancelled three times on one client
+			w := c13new(2)
+			w.drive()
+			w.startSub(1, 200, 9)
+			w.drain()
+			for i := 0; i < 3; i++ {
+				a := w.startSub(0, 200, i+1)
+				w.drain()
+				w.emitSnap(200, uint32(90+2*i))
+				w.drain()
+				w.startCancel(a)
+				w.drain()
+				w.emitSnap(200, uint32(91+2*i))
+				w.drain()
+			}
+			b := w.startSub(0, 200, 5)
+			w.drain()
+			w.emitSnap(200, 99)
+			w.drain()
+			w.startCancel(b)
+			w.drain()
+			return w, "resubscribe-cycles"
+		},
+		func() (*c13world, string) { // a burst of 60 events reaches the client at once (queue capacity 100)
+			w := c13new(1)
+			w.drive()
+			w.startSub(0, 106, 1)
+			w.drain()
+			w.startSub(0, 106, 2)
+			for i := 0; i < 60; i++ {
+				w.emitSnap(106, uint32(1000+i))
+				w.emitSend()
+			}
+			w.burst(0)
+			w.drain()
+			return w, "burst-60"
+		},
 		func() (*c13world, string) { // three connections, property and signal, emissions held between sends
 			w := c13new(3)
 			w.drive()
@@ -937,22 +1066,22 @@ func (w *c13world) liveSubs() []*c13sub {
 }
 
 // sequential: every operation runs to completion before the next one starts.
-func c13sequential(rng *hx.Rng, nops int) *c13world {
-	w := c13new(3)
+func c13sequential(rng *hx.Rng, nops, nconn, nsig, maxsubs int) *c13world {
+	w := c13new(nconn)
 	w.drive()
 	payload := uint32(100)
 	h := 0
 	for i := 0; i < nops; i++ {
 		live := w.liveSubs()
 		switch k := rng.Intn(10); {
-		case k < 3 && len(w.subs) < 9:
+		case k < 3 && len(w.subs) < maxsubs:
 			h++
-			w.startSub(rng.Intn(3), c13sigs[rng.Intn(3)], h)
+			w.startSub(rng.Intn(nconn), c13sigs[rng.Intn(nsig)], h)
 		case k < 5 && len(live) > 0:
 			w.startCancel(live[rng.Intn(len(live))])
 		default:
 			payload++
-			w.emitSnap(c13sigs[rng.Intn(3)], payload)
+			w.emitSnap(c13sigs[rng.Intn(nsig)], payload)
 		}
 		w.drain()
 		if len(w.bad) > 0 {
@@ -1015,9 +1144,9 @@ func runC13(res *hx.Result, rng *hx.Rng, tier string, outdir string) {
 	res.Rule = "schedules of subscribe / cancel / emit by up to 9 subscribers on 3 connections x 3 signals (one a property), " +
 		"executed label by label through harness-owned streams; non-trivial = at least 2 emissions with a change of the " +
 		"subscriber set between them; distinct by sha256 of the label sequence"
-	nSeq, nInter := 60, 60
+	nSeq, nInter := 200, 150
 	if tier == "thorough" {
-		nSeq, nInter = 1500, 3000
+		nSeq, nInter = 3000, 5000
 	}
 	// defect switches: replay of the C13_refuted_* witnesses on the implementation
 	w17, on17 := c13sched17()
@@ -1064,10 +1193,54 @@ func runC13(res *hx.Result, rng *hx.Rng, tier string, outdir string) {
 		finish(w, "script-"+name)
 	}
 	for i := 0; i < nSeq; i++ {
-		finish(c13sequential(rng, 6+rng.Intn(10)), "sequential")
+		if i%2 == 0 {
+			finish(c13sequential(rng, 6+rng.Intn(10), 3, 5, 9), "sequential")
+		} else { // few keys, many operations: shared registrations, re-subscription cycles
+			finish(c13sequential(rng, 14+rng.Intn(14), 2, 1+rng.Intn(2), 14), "sequential-focused")
+		}
 	}
 	for i := 0; i < nInter; i++ {
 		finish(c13interleaved(rng, 15+rng.Intn(30)), "interleaved")
+	}
+	if tier == "thorough" {
+		// every sequence of at most 4 operations over 2 connections x 2 signals (one through the generated proxy)
+		res.Exhaustive = true
+		var rec func(prefix []int)
+		run := func(seq []int) {
+			w := c13new(2)
+			w.drive()
+			payload := uint32(100)
+			h := 0
+			for _, o := range seq {
+				live := w.liveSubs()
+				switch {
+				case o < 4:
+					h++
+					w.startSub(o/2, []uint32{200, 106}[o%2], h)
+				case o == 4 && len(live) > 0:
+					w.startCancel(live[0])
+				case o == 5 && len(live) > 0:
+					w.startCancel(live[len(live)-1])
+				case o >= 6:
+					payload++
+					w.emitSnap([]uint32{200, 106}[o-6], payload)
+				}
+				w.drain()
+			}
+			finish(w, "exhaustive")
+		}
+		rec = func(prefix []int) {
+			if len(prefix) > 0 {
+				run(prefix)
+			}
+			if len(prefix) == 4 {
+				return
+			}
+			for o := 0; o < 8; o++ {
+				rec(append(append([]int(nil), prefix...), o))
+			}
+		}
+		rec(nil)
 	}
 	cf.Flush()
 }
